@@ -17,7 +17,7 @@ import (
 )
 
 type c10rOp struct {
-	Kind int `json:"kind"` // 0 delete policy 1 delete statement 2 delete prefix set 3 drop an assignment
+	Kind int `json:"kind"` // 0 delete policy 1 delete statement 2 delete prefix set 3 drop an assignment 4 delete the (never referenced) neighbour set that shares its name with prefix set Idx
 	Idx  int `json:"idx"`
 }
 
@@ -52,7 +52,7 @@ func drawC10r(t *rapid.T) c10rCase {
 	// (a neighbour table has no import direction of its own in this API: keep it export only)
 	c.Assign[1][0] = -1
 	for i, n := 0, rapid.IntRange(1, 8).Draw(t, "nops"); i < n; i++ {
-		c.Ops = append(c.Ops, c10rOp{Kind: rapid.IntRange(0, 3).Draw(t, fmt.Sprintf("o%dk", i)), Idx: rapid.IntRange(0, 3).Draw(t, fmt.Sprintf("o%di", i))})
+		c.Ops = append(c.Ops, c10rOp{Kind: rapid.IntRange(0, 4).Draw(t, fmt.Sprintf("o%dk", i)), Idx: rapid.IntRange(0, 3).Draw(t, fmt.Sprintf("o%di", i))})
 	}
 	return c
 }
@@ -63,6 +63,11 @@ func runC10r(c c10rCase, st *verifkit.Stats) *verifkit.Failure {
 		rp.DefinedSets.PrefixSets = append(rp.DefinedSets.PrefixSets, oc.PrefixSet{PrefixSetName: fmt.Sprintf("ps%d", i),
 			PrefixList: []oc.Prefix{{IpPrefix: netip.MustParsePrefix(fmt.Sprintf("10.%d.0.0/16", i)), MasklengthRange: "16..24"}}})
 	}
+	for i := 0; i < 2; i++ {
+		// neighbour sets with the names of the prefix sets: no statement refers to them
+		rp.DefinedSets.NeighborSets = append(rp.DefinedSets.NeighborSets, oc.NeighborSet{NeighborSetName: fmt.Sprintf("ps%d", i), NeighborInfoList: []string{fmt.Sprintf("10.0.0.%d", 1+i)}})
+	}
+	nsExists := [2]bool{true, true}
 	stmt := func(i int) oc.Statement {
 		s := oc.Statement{Name: fmt.Sprintf("st%d", i)}
 		if c.StmtSet[i] >= 0 {
@@ -224,6 +229,16 @@ func runC10r(c c10rCase, st *verifkit.Stats) *verifkit.Failure {
 			err = r.DeleteDefinedSet(ps, true)
 			if want && err == nil {
 				setExists[ki] = false
+			}
+		case 4:
+			ki := op.Idx % 2
+			if !nsExists[ki] {
+				continue
+			}
+			ns, _ := NewNeighborSet(oc.NeighborSet{NeighborSetName: fmt.Sprintf("ps%d", ki), NeighborInfoList: []string{fmt.Sprintf("10.0.0.%d", 1+ki)}})
+			err = r.DeleteDefinedSet(ns, true)
+			if err == nil {
+				nsExists[ki] = false
 			}
 		case 3:
 			ti, d := op.Idx%2, (op.Idx/2)%2
